@@ -31,7 +31,7 @@ ASSUMPTIONS = ["steps naming nodes absent from the graph are outside the quantif
 def budget(tier):
     if tier == "quick":
         return {"examples": 700, "shards": 2}
-    return {"examples": 6000, "shards": 16}
+    return {"examples": 12000, "shards": 16}
 
 
 @st.composite
